@@ -48,7 +48,7 @@ ASSUMPTIONS = ['real-valued semantics: a parameter draw at which the input expre
                'user defined functions are unfolded from the FuncDefs visible in the context; lemmas used by '
                'ApplyEquation / ApplyInductHyp are premises: a draw at which the lemma is not numerically valid cannot convict',
                'the context passed to a rule is not mutated by the rule (conditions are read when the call returns)']
-REQUIRED = {'quick': {'recorded_steps_executed': 1300, 'top_calls_judged': 1500, 'top_held': 1100, 'inner_calls_judged': 500,
+REQUIRED = {'quick': {'recorded_steps_executed': 1100, 'api_redo_steps': 150, 'api_go_back_discards_a_substitution': 20, 'top_calls_judged': 1500, 'top_held': 1100, 'inner_calls_judged': 500,
                       'gen_cases': 300, 'judged:Substitution': 100, 'judged:IntegrationByParts': 40, 'judged:FullSimplify': 400,
                       'judged:Equation': 150, 'judged:SplitRegion': 25, 'judged:ExpandPolynomial': 25, 'judged:Linearity': 25,
                       'judged:SubstitutionInverse': 25, 'judged:ApplyIdentity': 100, 'judged:DefiniteIntegralIdentity': 100,
@@ -56,7 +56,7 @@ REQUIRED = {'quick': {'recorded_steps_executed': 1300, 'top_calls_judged': 1500,
                       'aux_bounds_samples': 10000, 'aux_printparse_checked': 500, 'oracle_calibration_ok': 1,
                       'idcond_cases': 250, 'idcond_multi_condition_identities': 15, 'idcond_rewritten:all': 50,
                       'idcond_context:subset': 80, 'idcond_context:negated': 60, 'judged:SimplifyIdentity': 20},
-            'thorough': {'recorded_steps_executed': 1300, 'top_calls_judged': 5000, 'top_held': 3500, 'inner_calls_judged': 2000,
+            'thorough': {'recorded_steps_executed': 1100, 'api_redo_steps': 1500, 'api_go_back_discards_a_substitution': 200, 'top_calls_judged': 5000, 'top_held': 3500, 'inner_calls_judged': 2000,
                          'gen_cases': 15000, 'judged:Substitution': 500, 'judged:IntegrationByParts': 200,
                          'judged:FullSimplify': 1500, 'judged:Equation': 300, 'judged:SplitRegion': 100,
                          'judged:ExpandPolynomial': 100, 'judged:Linearity': 100, 'judged:SubstitutionInverse': 100,
@@ -79,7 +79,7 @@ def quiet():
 # =========================================================================================== monitor
 class Frame:
     __slots__ = ('cls', 'rule', 'e', 'e_sh', 'o_sh', 'out_str', 'ctx', 'depth', 'child_viol', 'children', 'driver',
-                 'verdict', 'jctx')
+                 'verdict', 'jctx', 'tsub')
 
 
 class Monitor:
@@ -103,6 +103,10 @@ class Monitor:
         self.defs_cache = {}
         self.judged_per_class = {}
         self.inner_class_quota = 25
+        # API histories: the substitutions in force according to the steps that are still part of the calculation
+        # (computed by the harness); when set, calls are judged against these, not against the context the
+        # implementation assembled for the call
+        self.true_substs = None
 
     # ---- installation
     def install(self):
@@ -149,6 +153,7 @@ class Monitor:
         fr.child_viol = False
         fr.children = []
         fr.driver = self.driver
+        fr.tsub = self.true_substs
         fr.verdict = None
         fr.e_sh = fr.o_sh = fr.out_str = fr.jctx = None
         if fr.depth == 0 or name in MUTATORS:
@@ -274,7 +279,7 @@ class Monitor:
             self.defs_cache[key] = (defs, vdefs)
         deps.update(vdefs)
         try:
-            for k, ex in ctx.get_substs().items():
+            for k, ex in (fr.tsub if fr.tsub is not None else ctx.get_substs()).items():
                 deps[str(k)] = O.to_shadow(ex)
         except Exception:
             pass
@@ -560,8 +565,16 @@ def classify(fr, res, o_sh, conds, defs, deps, rng, budget):
                 return cls + ':wrong-derivative-of-' + head, None
         if icls == 'LHopital':
             return cls + ':applied-to-non-indeterminate-form', None
-        if icls == 'ReplaceSubstitution' and O.contains_kind(e, ('II', 'I')):
-            return cls + ':bound-variable-substituted', 'Expr.subst replaces the integration variable inside its own binder'
+        if icls == 'ReplaceSubstitution':
+            # the recorded finding: a substitution variable is ALSO the bound variable of a binder inside the expression
+            binders = set(t[1] for t in O.subterms(e) if t[0] in ('II', 'I', 'S', 'L', 'E') and isinstance(t[1], str))
+            tsub = getattr(fr, 'tsub', None)
+            svars = set(str(k) for k in tsub) if tsub is not None else set(str(k) for k in fr.ctx.get_substs())
+            if binders & svars:
+                return cls + ':bound-variable-substituted', 'Expr.subst replaces the integration variable inside its own binder'
+            if tsub is not None:
+                return cls + ':result-depends-on-steps-that-were-discarded', 'judged against the substitutions of the steps still in the calculation: ' + \
+                    ', '.join('%s = %s' % (k, v) for k, v in tsub.items())
     except Exception:
         pass
     return cls + ':' + what, extra
@@ -747,6 +760,180 @@ def run_recorded(vctx, mon, names, only=None):
                                                                        last.get('verdict'))) if si == 0 and ii < 1 else None)
 
 
+# =========================================================================================== API histories
+GEN_HISTORY_FUNS = ('cos', 'sin', 'exp')
+
+
+def gen_history(rng):
+    """the calculation of two integrals that reuse one substitution variable (start text, list of rule makers)"""
+    from integral import rules, parser
+    f, g = rng.choice(GEN_HISTORY_FUNS), rng.choice(GEN_HISTORY_FUNS)
+    a, b, c = rng.choice([2, 3, 4, 5]), rng.choice([0, 1, 2, 3]), rng.choice([2, 3, 4, 5, 6])
+    while c == a:
+        c = rng.choice([2, 3, 4, 5, 6, 7])
+    in1 = '%d * x + %d' % (a, b) if b else '%d * x' % a
+    in2 = '%d * x' % c
+    var = rng.choice(['u', 't', 'v'])
+    var2 = var if rng.random() < 0.8 else rng.choice(['w', 's'])
+    start = '(INT x. %s(%s)) + (INT x. %s(%s))' % (f, in1, g, in2)
+    mk = [lambda: rules.Substitution(var, parser.parse_expr(in1)),
+          lambda: rules.OnLocation(rules.IndefiniteIntegralIdentity(), '0'),
+          lambda: rules.ReplaceSubstitution(),
+          lambda: rules.Substitution(var2, parser.parse_expr(in2)),
+          lambda: rules.OnLocation(rules.IndefiniteIntegralIdentity(), '1'),
+          lambda: rules.ReplaceSubstitution(),
+          lambda: rules.FullSimplify()]
+    return {'start': start, 'n': len(mk), 'desc': [f, in1, g, in2, var, var2]}, mk
+
+
+def substs_of(steps):
+    d = {}
+    for st in steps:
+        try:
+            d.update(st.rule.get_substs())
+        except Exception:
+            pass
+    return d
+
+
+def drive_history(vctx, mon, calc, rules_list, redo_at, drv):
+    """forward through the public API (not judged: the same calls are judged by the recorded / generated workloads),
+    then go back to position k and redo from there; every redone step is judged against the substitutions of the
+    steps that are still in the calculation.  -> number of redone steps"""
+    mon.enabled = False
+    fwd = []
+    try:
+        for r in rules_list:
+            try:
+                with quiet():
+                    calc.perform_rule(r)
+            except Exception:
+                vctx.count('api_forward_step_raised')
+                break
+            fwd.append(calc.steps[-1].res)
+    finally:
+        mon.enabled = True
+    vctx.count('api_forward_steps', len(fwd))
+    done = 0
+    for k in redo_at:
+        if k >= len(fwd):
+            continue
+        vctx.count('api_go_back')
+        later = substs_of(calc.steps[k:])
+        before = substs_of(calc.steps[:k])
+        if any(n in before and str(before[n]) != str(v) for n, v in later.items()) or any(n not in before for n in later):
+            vctx.count('api_go_back_discards_a_substitution')
+        for j in range(k, len(fwd)):
+            mon.driver = dict(drv, redo_from=k, step=j)
+            mon.last = None
+            try:
+                mon.true_substs = substs_of(calc.steps[:j]) if j > k else before
+                with quiet():
+                    if j == k:
+                        # the step is redone from the earlier position: later steps are discarded by the API
+                        if k == 0:
+                            calc.clear()
+                            calc.perform_rule(rules_list[0])
+                        elif vctx.rng.random() < 0.5:
+                            calc.perform_rule(rules_list[k], k - 1)
+                        else:
+                            calc.steps[k - 1].perform_rule(rules_list[k])
+                    else:
+                        calc.perform_rule(rules_list[j])
+            except Exception:
+                vctx.count('api_redo_raised')
+                break
+            finally:
+                mon.true_substs = None
+            done += 1
+            vctx.count('api_redo_steps')
+            vd = (mon.last or {}).get('verdict')
+            vctx.count('api_redo_verdict:%s' % vd)
+            same = False
+            try:
+                same = calc.steps[j].res == fwd[j]
+            except Exception:
+                pass
+            vctx.count('api_redo_same_as_first_time' if same else 'api_redo_differs_from_first_time')
+            vctx.case(('api', json.dumps(drv, sort_keys=True, default=str), k, j), nontrivial=vd not in (None, 'identity', 'raised'),
+                      sample='%s redo from %d step %d: %s -> %s' % (drv.get('file') or drv.get('gen'), k, j, vd, str(calc.steps[j].res)[:80])
+                      if done <= 1 and vctx.evaluations < 3 else None)
+    return done
+
+
+def run_api_recorded(vctx, mon, names, only=None):
+    from vf.core import REPO
+    from integral import compstate
+    ex = os.path.join(REPO, 'integral', 'examples')
+    files, _ = example_files()
+    books = {n: b for n, b, _, _ in files}
+    for n in names:
+        with open(os.path.join(ex, n + '.json'), encoding='utf-8') as f:
+            d = json.load(f)
+        try:
+            with quiet():
+                file = compstate.CompFile(books.get(n, 'interesting'), n)
+        except Exception:
+            continue
+        for ii, raw in enumerate(d['content']):
+            try:
+                with quiet():
+                    it = compstate.parse_item(file, raw)
+                file.add_item(it)
+            except Exception:
+                continue
+            calcs = []
+            walk_calcs(it, calcs)
+            for ci, c in enumerate(calcs):
+                if len(c.steps) < 2:
+                    continue
+                if only is not None and (ii, ci) != tuple(only[:2]):
+                    continue
+                try:
+                    calc = compstate.Calculation(c.parent, c.ctx, c.start, conds=c.conds,
+                                                 connection_symbol=getattr(c, 'connection_symbol', '='))
+                except Exception:
+                    vctx.count('api_calculation_not_rebuilt')
+                    continue
+                rl = [st.rule for st in c.steps]
+                if only is not None:
+                    ks = [only[2]]
+                else:
+                    # go back to just after a substitution was introduced (the interesting place), else anywhere
+                    pref = [k for k in range(1, len(rl)) if substs_of(c.steps[k:]) and vctx.rng.random() < 0.7]
+                    ks = [vctx.rng.choice(pref)] if pref else [vctx.rng.randrange(len(rl))]
+                vctx.count('api_recorded_calculations')
+                drive_history(vctx, mon, calc, rl, ks, {'kind': 'api-recorded', 'file': n, 'item': ii, 'calc': ci})
+
+
+def run_api_generated(vctx, mon, count, only=None):
+    import random
+    from integral import compstate
+    from integral.context import Context
+    ctx = Context()
+    with quiet():
+        ctx.load_book('base')
+    for i in range(count):
+        seed = only['seed'] if only else vctx.rng.getrandbits(40)
+        rng = random.Random(seed)
+        info, mk = gen_history(rng)
+        try:
+            with quiet():
+                file = compstate.CompFile(ctx, 'vf_api_%d' % i)
+                calc = file.add_calculation(info['start'])
+                rl = [m() for m in mk]
+        except Exception as e:
+            vctx.count('api_generated_setup_failed:' + type(e).__name__)
+            continue
+        ks = [only['redo_from']] if only else sorted(rng.sample(range(1, len(rl)), 2))
+        vctx.count('api_generated_calculations')
+        for k in ks:
+            if k != ks[0]:
+                with quiet():
+                    calc = file.add_calculation(info['start'])
+            drive_history(vctx, mon, calc, rl, [k], {'kind': 'api-generated', 'gen': info['desc'], 'seed': seed})
+
+
 # =========================================================================================== shards
 def shards(tier, seed):
     files, _ = example_files()
@@ -761,6 +948,8 @@ def shards(tier, seed):
     ngen = 4 if tier == 'quick' else 48
     per = 90 if tier == 'quick' else 420
     out += [{'kind': 'gen', 'i': i, 'count': per} for i in range(ngen)]
+    out += [{'kind': 'api', 'files': sorted(b[1]), 'i': i, 'gen': 12 if tier == 'quick' else 60}
+            for i, b in enumerate(bins[:2 if tier == 'quick' else len(bins)]) if b[1]]
     naux = 1 if tier == 'quick' else 8
     out += [{'kind': 'aux', 'i': i, 'count': 440 if tier == 'quick' else 600} for i in range(naux)]
     if tier == 'quick':
@@ -819,6 +1008,9 @@ def run_shard(vctx, spec):
     mon.install()
     if spec['kind'] == 'recorded':
         run_recorded(vctx, mon, spec['files'])
+    elif spec['kind'] == 'api':
+        run_api_generated(vctx, mon, spec['gen'])
+        run_api_recorded(vctx, mon, spec['files'])
     elif spec['kind'] == 'gen':
         from vf import oracle_c19_gen as c19_gen
         c19_gen.run_generated(vctx, mon, spec['count'])
@@ -847,6 +1039,10 @@ def replay(vctx, rec):
     drv = w.get('driver') or {}
     if drv.get('kind') == 'recorded':
         run_recorded(vctx, mon, [drv['file']], only=(drv['item'], drv['calc'], drv['step']))
+    elif drv.get('kind') == 'api-recorded':
+        run_api_recorded(vctx, mon, [drv['file']], only=(drv['item'], drv['calc'], drv['redo_from']))
+    elif drv.get('kind') == 'api-generated':
+        run_api_generated(vctx, mon, 1, only={'seed': drv['seed'], 'redo_from': drv['redo_from']})
     else:
         from vf import oracle_c19_gen as c19_gen
         c19_gen.replay_driver(vctx, mon, drv, w)
